@@ -361,9 +361,18 @@ def canon(td):
 _CONFIRMED_TIMEOUTS = [0]
 
 
+def slow_is_infra(e):
+    """outside `run_impl` (the only place where non-termination is a verdict: confirmed with a 120 s retry, the historical split(0)
+    defect) an implementation call that exceeds its generous limit says something about the BOX, not about the property: exit 2"""
+    if isinstance(e, TimeoutError):
+        from common import Infra
+        raise Infra(f"an implementation call did not finish within its time limit on this box: {e}")
+
+
+
 def run_impl(td, op, spelling=0, limit=5.0):
     """(answer in the model's canonical form, raw result or exception).
-    A timeout is only believed after a retry with a 6x longer limit (a loaded box must not produce a VIOLATION);
+    A timeout is only believed after a retry with a 24x longer limit (120 s) (a loaded box must not produce a VIOLATION);
     after three confirmed non-terminations the retry is skipped (the violation is established, keep the run short)."""
     try:
         try:
@@ -372,7 +381,7 @@ def run_impl(td, op, spelling=0, limit=5.0):
         except TimeoutError:
             if _CONFIRMED_TIMEOUTS[0] >= 3:
                 raise
-            with time_limit(limit * 6):
+            with time_limit(limit * 24):
                 r = call(td, op, spelling)
     except TimeoutError as e:
         _CONFIRMED_TIMEOUTS[0] += 1
@@ -779,7 +788,14 @@ def oracle_ext(run, kind, specs, args, site="shape_op_ext", container=None, rng=
         tds = [cont]
         site = "shape_op" if container == "tc" else "shape_op_lazy"
     else:
-        tds = [build_offset(s, 100000 * i) for i, s in enumerate(specs)]
+        def rot(sp_, r):
+            # operands filled in different key orders (top level and nested): stack / cat must pair the entries by KEY
+            ents = [(k, (rot(e, r) if e[0] == "node" else e)) for k, e in sp_[3]]
+            if ents:
+                ents = ents[r % len(ents):] + ents[:r % len(ents)]
+            return ("node", sp_[1], sp_[2], ents)
+        multi_in = kind in ("stack", "cat", "stack_out", "cat_out")
+        tds = [build_offset(rot(s, i) if multi_in else s, 100000 * i) for i, s in enumerate(specs)]
     idxs = [torch.arange(numel(s[1]), dtype=torch.int64).reshape(s[1]) for s in specs]
     case = {"kind": kind, "tds": [spec_sx(s) for s in specs], "args": [a.tolist() if isinstance(a, torch.Tensor) else a for a in args]}
     if container is not None:
@@ -859,6 +875,7 @@ def oracle_ext(run, kind, specs, args, site="shape_op_ext", container=None, rng=
             res = go(tds, use_out=kind.endswith("_out"))
         ierr = None
     except Exception as e:  # noqa: BLE001
+        slow_is_infra(e)
         res, ierr = None, e
     if src_before is not None and not isinstance(ierr, TimeoutError):
         src_after = [meta_canon(t) for t in tds]
@@ -1046,24 +1063,36 @@ def densify(x):
     return x
 
 
-LAZY_OPS = ("permute", "transpose", "squeeze", "unsqueeze", "unbind", "split", "chunk", "splitlist")
+LAZY_OPS = ("permute", "transpose", "squeeze", "unsqueeze", "unbind", "split", "chunk", "splitlist", "flatten", "unflatten", "reshape", "expand")
 
 
 def run_container(run, spec, op, kind, rng, malformed=False, stack_dim=None):
     """the same case on another container kind (oracle only).  A tensorclass delegates to the TensorDict code (same site,
     so the same known findings apply).  Lazy stacks have their own implementation (_lazy.py): only the ops listed in
-    LAZY_OPS with well-formed arguments are judged; the view family (view/reshape/flatten/unflatten/expand) of lazy stacks
-    is known to be unreliable around size-0/1 dims (see REPORT_C02.md) and is not part of this check."""
+    LAZY_OPS with well-formed arguments are judged (`view` is refused by lazy stacks by design: "Call `reshape` instead");
+    expanding to size 0 gives a stack without members (known finding C02-lazy-empty-stack-result)."""
     if kind == "lazy" and (malformed or op[0] not in LAZY_OPS):
         return
     cont, sp = build_container(spec, kind, rng, stack_dim)
     if cont is None:
         return
     site = "shape_op" if kind == "tc" else "shape_op_lazy"
+
+    def cont_meta():
+        c = cont._tensordict if kind == "tc" else cont
+        out = [list(c.batch_size), [None if x is None else str(x) for x in c.names], bool(c.is_locked)]
+        if kind == "lazy":
+            out += [c.stack_dim, [[list(m.batch_size), [None if x is None else str(x) for x in m.names], sorted(map(str, m.keys(True, True)))] for m in c.tensordicts]]
+        return out
+    meta_before = cont_meta()
     try:
         with time_limit(30.0):
             r = call(cont, op)
     except Exception as e:  # noqa: BLE001
+        slow_is_infra(e)
+        if not isinstance(e, TimeoutError) and cont_meta() != meta_before:
+            run.oracle_fail(site, {"op": list(op), "td": spec_sx(sp), "container": kind}, "the source container was modified by a refused op", f"{op[0]}:source-modified")
+            return
         impl, raw = ["err", err_class(e)], e
         # a container kind that does not support an op / argument may refuse it: only wrong *results* are judged,
         # and non-termination
@@ -1082,6 +1111,9 @@ def run_container(run, spec, op, kind, rng, malformed=False, stack_dim=None):
             run.count(site + ".refused", op[0])
         return
     case = {"op": list(op), "td": spec_sx(sp), "container": kind}
+    if cont_meta() != meta_before:
+        run.oracle_fail(site, case, f"the source container was modified by the (out-of-place) op: {cont_meta()} before: {meta_before}"[:500], f"{op[0]}:source-modified")
+        return
     prefix = ""
     if kind == "lazy":
         n = len(sp[1])
@@ -1091,6 +1123,15 @@ def run_container(run, spec, op, kind, rng, malformed=False, stack_dim=None):
             a, b = (op[1] + n if op[1] < 0 else op[1]), (op[2] + n if op[2] < 0 else op[2])
             if sd in (a, b) and abs(a - b) >= 2:
                 prefix = "stackdim-nonadjacent:"
+        if op[0] in ("flatten", "unflatten", "reshape", "expand"):
+            # `_lazy.py:_view` re-cuts the stack (lazy stacks of chunks / a dense reshape): with a zero-sized batch dim the result
+            # degenerates (empty-stack class, not judged), and the names of NESTED entries are erased (known finding)
+            if any(x == 0 for x in sp[1]):
+                run.count(site + ".not_judged", "view family on a zero-sized lazy stack")
+                return
+            prefix = "lazy-viewfamily:"
+        if op[0] == "expand" and any(x == 0 for x in op[1]):
+            prefix = "empty-stack-result:"
         if op[0] in ("split", "splitlist", "chunk"):
             dd = op[-1] + n if op[-1] < 0 else op[-1]
             if dd == sd:
